@@ -1335,4 +1335,510 @@ theorem findSub_none (subs : List CmapSub) (p e : Nat) (h : findSub subs p e = n
   intro s hs
   simpa using h s hs
 
+/-! ## texts without continuation characters -/
+
+/-- code points that `set_unicode_props` may turn into grapheme continuations although they are not
+    marks (emoji modifiers, regional indicators, ZWJ, halfwidth katakana sound marks, tags) -/
+def contTrigger (u : Ucd) (c : Nat) : Bool :=
+  (u.gc c == GC_MODIFIER_SYMBOL && decide (0x1F3FB ≤ c) && decide (c ≤ 0x1F3FF)) || inRI c || c == 0x200D
+    || (decide (0xFF9E ≤ c) && decide (c ≤ 0xFF9F)) || (decide (0xE0020 ≤ c) && decide (c ≤ 0xE007F))
+
+/-- a character that is not a mark and cannot become a grapheme continuation -/
+structure PlainChar (u : Ucd) (c : Nat) : Prop where
+  mark : isMarkGc (u.gc c) = false
+  trig : contTrigger u c = false
+
+theorem diExtra_hi_even (c : Nat) (p : UProps) (hc : c ≠ 0x200D) (hp : p.hi = 0) : (diExtra c p).hi % 2 = 0 := by
+  unfold diExtra
+  split
+  · simp [hp]
+  · split
+    · rename_i h; simp at h; exact absurd h hc
+    · split
+      · simp [hp]
+      · split
+        · simp [hp]
+        · split <;> simp [hp]
+
+theorem initP_plain (u : Ucd) (c : Nat) (h : PlainChar u c) :
+    (initP u c).cont = false ∧ (initP u c).hi % 2 = 0 := by
+  have hc : c ≠ 0x200D := by
+    intro hc; have := h.trig; simp [contTrigger, hc] at this
+  unfold initP
+  dsimp only
+  split
+  · exact ⟨rfl, rfl⟩
+  · rw [if_neg (by simp [h.mark])]
+    split
+    · exact ⟨by rw [diExtra_cont], diExtra_hi_even c _ hc rfl⟩
+    · exact ⟨rfl, rfl⟩
+
+theorem classifyCont_plain (u : Ucd) (prev : Option G) (g : G) (h : PlainChar u g.gid) :
+    classifyCont prev { g with props := initP u g.gid } = { g with props := initP u g.gid } ∧
+    takesZwjBranch prev { g with props := initP u g.gid } = false := by
+  have ht := h.trig
+  simp only [contTrigger, Bool.or_eq_false_iff, Bool.and_eq_false_iff] at ht
+  obtain ⟨⟨⟨⟨h1, h2⟩, h3⟩, h4⟩, h5⟩ := ht
+  have hz : ({ g with props := initP u g.gid } : G).isZwj = false := by
+    unfold G.isZwj; simp only; rw [(initP_plain u g.gid h).2]; simp
+  constructor
+  · unfold classifyCont
+    simp only [initP_gc, hz, h2]
+    split
+    · rfl
+    · split
+      · rename_i hm; simp only [Bool.and_eq_true, decide_eq_true_eq] at hm
+        rcases h1 with (h1 | h1) | h1 <;> simp_all
+      · simp only [Bool.and_false, Bool.false_eq_true, if_false]
+        split
+        · rename_i hm; simp only [Bool.or_eq_true, Bool.and_eq_true, decide_eq_true_eq] at hm
+          simp only [decide_eq_false_iff_not] at h4 h5
+          omega
+        · rfl
+  · unfold takesZwjBranch; simp [hz]
+
+theorem setUnicodeProps_plain (u : Ucd) (prev : Option G) (l : List G) (s : Scratch)
+    (h : ∀ g ∈ l, PlainChar u g.gid) :
+    (setUnicodeProps u prev false l s).1 = l.map fun g => { g with props := initP u g.gid } := by
+  induction l generalizing prev s with
+  | nil => rfl
+  | cons g rest ih =>
+    have hg := h g List.mem_cons_self
+    simp only [setUnicodeProps, G.init, Bool.false_and, Bool.false_eq_true, if_false, List.map_cons]
+    rw [(classifyCont_plain u prev g hg).1, (classifyCont_plain u prev g hg).2,
+      ih _ _ (fun x hx => h x (List.mem_cons_of_mem _ hx))]
+
+
+theorem takeWhile_eq_nil_of_all_false {α} (p : α → Bool) (l : List α) (h : ∀ x ∈ l, p x = false) :
+    l.takeWhile p = [] ∧ l.dropWhile p = l := by
+  cases l with
+  | nil => exact ⟨rfl, rfl⟩
+  | cons a t => simp [h a List.mem_cons_self]
+
+theorem takeWhile_eq_self_of_all {α} (p : α → Bool) (l : List α) (h : ∀ x ∈ l, p x = true) :
+    l.takeWhile p = l ∧ l.dropWhile p = [] := by
+  induction l with
+  | nil => exact ⟨rfl, rfl⟩
+  | cons a t ih =>
+    have := ih (fun x hx => h x (List.mem_cons_of_mem _ hx))
+    simp [h a List.mem_cons_self, this]
+
+theorem graphemes_noCont (merge : Bool) (level n : Nat) (l : List G) (hn : l.length ≤ n)
+    (h : ∀ g ∈ l, g.cont = false) : graphemes merge level n l = l.map fun g => [g] := by
+  induction n generalizing l with
+  | zero =>
+    cases l with
+    | nil => rfl
+    | cons g tl => simp at hn
+  | succ n ih =>
+    cases l with
+    | nil => rfl
+    | cons g tl =>
+      have htl : ∀ x ∈ tl, x.cont = false := fun x hx => h x (List.mem_cons_of_mem _ hx)
+      obtain ⟨ht, hd⟩ := takeWhile_eq_nil_of_all_false G.cont tl htl
+      simp only [graphemes, ht, hd, List.map_cons]
+      have : (if merge = true then mergeClusters level [g] tl else [g] ++ tl) = g :: tl := by
+        split
+        · unfold mergeClusters; simp
+        · rfl
+      rw [this]
+      simp only [List.length_singleton, List.take_succ_cons, List.take_zero, List.drop_succ_cons, List.drop_zero]
+      rw [ih tl (by simp at hn; omega) htl]
+
+theorem flatten_map_singleton {α} (l : List α) : (l.map fun g => [g]).flatten = l := by
+  induction l with
+  | nil => rfl
+  | cons a t ih => simp [ih]
+
+theorem formClusters_noCont (c : Cfg) (l : List G) (s : Scratch) (h : ∀ g ∈ l, g.cont = false) :
+    formClusters c l s = l := by
+  unfold formClusters
+  split
+  · rw [graphemes_noCont _ _ _ _ (Nat.le_refl _) h, flatten_map_singleton]
+  · rfl
+
+theorem reverseGraphemes_noCont (level : Nat) (l : List G) (h : ∀ g ∈ l, g.cont = false) :
+    reverseGraphemes level l = l.reverse := by
+  unfold reverseGraphemes
+  rw [graphemes_noCont _ _ _ _ (Nat.le_refl _) h, ← List.map_reverse, flatten_map_singleton]
+
+theorem mapAccum_found (u : Ucd) (f : Font) (l : List G) (s : Scratch)
+    (h : ∀ g ∈ l, (nominal f g.gid).isSome = true) :
+    mapAccum (decomposeCurrent u f) l s = (l.map fun g => { g with var1 := (nominal f g.gid).getD 0 }, s) := by
+  induction l generalizing s with
+  | nil => rfl
+  | cons g tl ih =>
+    have hg := h g List.mem_cons_self
+    have hd : decomposeCurrent u f g s = ({ g with var1 := (nominal f g.gid).getD 0 }, s) := by
+      unfold decomposeCurrent
+      cases hn : nominal f g.gid with
+      | none => rw [hn] at hg; cases hg
+      | some gl => rfl
+    simp only [mapAccum, hd, List.map_cons]
+    rw [ih s (fun x hx => h x (List.mem_cons_of_mem _ hx))]
+
+theorem normalizeRound1_noMarks (u : Ucd) (f : Font) (n : Nat) (l : List G) (s : Scratch)
+    (hn : 0 < n) (h : ∀ g ∈ l, g.isMark = false) :
+    normalizeRound1 u f n l s = mapAccum (decomposeCurrent u f) l s := by
+  cases n with
+  | zero => cases hn
+  | succ n =>
+    cases l with
+    | nil => rfl
+    | cons g0 rest =>
+      have hr : ∀ x ∈ rest, (!x.isMark) = true := by
+        intro x hx; rw [h x (List.mem_cons_of_mem _ hx)]; rfl
+      have hd : rest.dropWhile (fun g => !g.isMark) = [] := (takeWhile_eq_self_of_all _ rest hr).2
+      have ht : rest.takeWhile (fun g => !g.isMark) = rest := (takeWhile_eq_self_of_all _ rest hr).1
+      simp only [normalizeRound1, hd, ht]
+
+theorem positionMarksFb_noMarks (adjust seen : Bool) (l : List G) (h : ∀ g ∈ l, g.isMark = false) :
+    positionMarksFb adjust seen l = l := by
+  induction l generalizing seen with
+  | nil => rfl
+  | cons g tl ih =>
+    simp only [positionMarksFb, h g List.mem_cons_self, Bool.false_eq_true, if_false]
+    rw [ih true (fun x hx => h x (List.mem_cons_of_mem _ hx))]
+
+
+/-- what `rotate_chars` does to one slot for the requested direction -/
+def rot1 (u : Ucd) (f : Font) (c : Cfg) (g : G) : G :=
+  let g := if c.dir.isBackward then mirror1 u f g else g
+  if c.dir.isVertical then vert1 u f g else g
+
+theorem rotateChars_eq_map (u : Ucd) (f : Font) (c : Cfg) (l : List G) :
+    rotateChars u f c l = l.map (rot1 u f c) := by
+  unfold rotateChars rot1
+  cases c.dir.isBackward <;> cases c.dir.isVertical <;> simp [List.map_map, Function.comp_def]
+
+theorem mirror1_props (u : Ucd) (f : Font) (g : G) :
+    (mirror1 u f g).props = g.props ∧ (mirror1 u f g).cp0 = g.cp0 ∧ (mirror1 u f g).cluster = g.cluster
+      ∧ (mirror1 u f g).var1 = g.var1 := by
+  unfold mirror1; split
+  · split <;> exact ⟨rfl, rfl, rfl, rfl⟩
+  · exact ⟨rfl, rfl, rfl, rfl⟩
+theorem vert1_props (u : Ucd) (f : Font) (g : G) :
+    (vert1 u f g).props = g.props ∧ (vert1 u f g).cp0 = g.cp0 ∧ (vert1 u f g).cluster = g.cluster
+      ∧ (vert1 u f g).var1 = g.var1 := by
+  unfold vert1; split
+  · split <;> exact ⟨rfl, rfl, rfl, rfl⟩
+  · exact ⟨rfl, rfl, rfl, rfl⟩
+theorem rot1_props (u : Ucd) (f : Font) (c : Cfg) (g : G) :
+    (rot1 u f c g).props = g.props ∧ (rot1 u f c g).cp0 = g.cp0 ∧ (rot1 u f c g).cluster = g.cluster
+      ∧ (rot1 u f c g).var1 = g.var1 := by
+  unfold rot1
+  cases c.dir.isBackward <;> cases c.dir.isVertical <;>
+    simp [mirror1_props, vert1_props]
+
+/-- the slot a plain character ends up as (before the orientation of the whole run) -/
+def renderPlain (u : Ucd) (f : Font) (c : Cfg) (g : G) : G :=
+  let g1 := rot1 u f c { g with props := initP u g.gid }
+  posDefault1 f c.dir (mapGlyph1 { g1 with var1 := (nominal f g1.gid).getD 0 })
+
+theorem posDefault1_congr (f : Font) (d d' : Dir) (h : d.isHorizontal = d'.isHorizontal) (g : G) :
+    posDefault1 f d g = posDefault1 f d' g := by
+  unfold posDefault1; rw [h]
+
+theorem insertDottedCircle_noMark (u : Ucd) (f : Font) (c : Cfg) (l : List G) (s : Scratch)
+    (h : ∀ g ∈ l.head?, g.isMark = false) : insertDottedCircle u f c l s = (l, s) := by
+  unfold insertDottedCircle
+  cases l with
+  | nil => rfl
+  | cons g0 tl =>
+    simp only
+    rw [h g0 (by simp)]
+    simp
+
+theorem map_id_of_forall {l : List G} {fn : G → G} (h : ∀ g ∈ l, fn g = g) : l.map fn = l := by
+  induction l with
+  | nil => rfl
+  | cons a t ih =>
+    rw [List.map_cons, h a List.mem_cons_self, ih (fun x hx => h x (List.mem_cons_of_mem _ hx))]
+
+
+theorem prepare_plain (u : Ucd) (f : Font) (c : Cfg) (l : List G) (h : ∀ g ∈ l, PlainChar u g.gid) :
+    prepare u f c l =
+      let l1 := l.map fun g => { g with props := initP u g.gid }
+      let s1 := l.foldl (fun s g => initS u g.gid s) {}
+      (if needsReverse c l1 then l1.reverse else l1, s1, if needsReverse c l1 then c.dir.reverse else c.dir) := by
+  have hsu := setUnicodeProps_plain u none l {} h
+  have hsc := setUnicodeProps_scratch u none false l {}
+  have hnm : ∀ g ∈ l.map (fun g => ({ g with props := initP u g.gid } : G)), g.isMark = false ∧ g.cont = false := by
+    intro g hg
+    obtain ⟨x, hx, rfl⟩ := List.mem_map.mp hg
+    exact ⟨by unfold G.isMark; simp only; rw [initP_gc]; exact (h x hx).mark, (initP_plain u x.gid (h x hx)).1⟩
+  unfold prepare
+  simp only
+  rw [hsu, hsc, insertDottedCircle_noMark u f c _ _ (by
+    intro g hg; exact (hnm g (List.mem_of_mem_head? hg)).1)]
+  simp only
+  rw [formClusters_noCont c _ _ (fun g hg => (hnm g hg).2)]
+  unfold ensureNativeDirection
+  split
+  · rw [reverseGraphemes_noCont _ _ (fun g hg => (hnm g hg).2)]
+  · rfl
+
+theorem substitute_plain (u : Ucd) (f : Font) (c : Cfg) (l : List G) (s : Scratch)
+    (hm : ∀ g ∈ l, g.isMark = false)
+    (hg : ∀ g ∈ l, (nominal f (rot1 u f c g).gid).isSome = true) :
+    substitute u f c l s =
+      (l.map fun g => mapGlyph1 { rot1 u f c g with var1 := (nominal f (rot1 u f c g).gid).getD 0 }, s) := by
+  unfold substitute
+  simp only
+  rw [rotateChars_eq_map]
+  cases l with
+  | nil => rfl
+  | cons a t =>
+    rw [normalizeRound1_noMarks u f _ _ s (by simp) (by
+      intro g hg'
+      obtain ⟨x, hx, rfl⟩ := List.mem_map.mp hg'
+      unfold G.isMark; rw [(rot1_props u f c x).1]; exact hm x hx)]
+    rw [mapAccum_found u f _ s (by
+      intro g hg'
+      obtain ⟨x, hx, rfl⟩ := List.mem_map.mp hg'
+      exact hg x hx)]
+    simp only [mapGlyphsAndClasses, List.map_map, Function.comp_def]
+
+theorem zeroGdef1_base (adjust : Bool) (g : G) (h : g.var1 = 2) : zeroGdef1 adjust g = g := by
+  unfold zeroGdef1; rw [h]; rfl
+
+theorem position_plain (f : Font) (c : Cfg) (bdir : Dir) (s : Scratch) (l : List G)
+    (hm : ∀ g ∈ l, g.isMark = false) (hv : ∀ g ∈ l, g.var1 = 2)
+    (hs : s.hasSpaceFb = false)
+    (hd : (s.hasDI && !hasFlag c.flags BF_PRESERVE) = false) :
+    position f c bdir s l = l.map (posDefault1 f bdir) := by
+  unfold position
+  simp only [hs, Bool.false_eq_true, if_false]
+  have h1 : zeroMarkWidthsByGdef bdir.isForward (positionDefault f bdir l) = positionDefault f bdir l := by
+    unfold zeroMarkWidthsByGdef positionDefault
+    apply map_id_of_forall
+    intro g hg
+    obtain ⟨x, hx, rfl⟩ := List.mem_map.mp hg
+    exact zeroGdef1_base _ _ (by rw [(posDefault1_nonPos f bdir x).2.2.2.2]; exact hv x hx)
+  rw [h1]
+  have h2 : zeroWidthDI c s (positionDefault f bdir l) = positionDefault f bdir l := by
+    unfold zeroWidthDI
+    rw [if_neg]
+    rw [Bool.and_assoc]
+    intro hh
+    simp only [Bool.and_eq_true] at hh
+    rw [Bool.and_eq_false_iff] at hd
+    rcases hd with hd | hd
+    · rw [hd] at hh; exact absurd hh.1 (by decide)
+    · rw [hd] at hh; exact absurd hh.2.1 (by decide)
+  rw [h2]
+  apply positionMarksFb_noMarks
+  intro g hg
+  unfold positionDefault at hg
+  obtain ⟨x, hx, rfl⟩ := List.mem_map.mp hg
+  unfold G.isMark; rw [(posDefault1_nonPos f bdir x).2.2.2.1]; exact hm x hx
+
+theorem finish_plain (f : Font) (c : Cfg) (bdir : Dir) (s : Scratch) (l : List G)
+    (hd : (s.hasDI && !hasFlag c.flags BF_PRESERVE) = false) :
+    finish f c bdir s l = if bdir.isBackward then l.reverse else l := by
+  unfold finish hideDI
+  rw [hd]; rfl
+
+
+theorem isBackward_reverse (d : Dir) : d.reverse.isBackward = !d.isBackward := by cases d <;> rfl
+theorem isHorizontal_reverse (d : Dir) : d.reverse.isHorizontal = d.isHorizontal := by cases d <;> rfl
+
+/-- a text of plain characters that all have glyphs, with nothing to hide: every slot is rendered on
+    its own, and the run is reversed exactly when the requested direction is backward -/
+theorem shapeCore_plain (u : Ucd) (f : Font) (c : Cfg) (l : List G)
+    (h1 : ∀ g ∈ l, PlainChar u g.gid)
+    (h2 : ∀ g ∈ l, (nominal f (rot1 u f c { g with props := initP u g.gid }).gid).isSome = true)
+    (h3 : (∀ g ∈ l, (decide (0x80 ≤ g.gid) && u.isDI g.gid) = false) ∨ hasFlag c.flags BF_PRESERVE = true) :
+    shapeCore u f c l =
+      if c.dir.isBackward then (l.map (renderPlain u f c)).reverse else l.map (renderPlain u f c) := by
+  unfold shapeCore
+  simp only
+  rw [prepare_plain u f c l h1]
+  simp only
+  generalize hl1 : l.map (fun g => ({ g with props := initP u g.gid } : G)) = l1
+  generalize hs1 : l.foldl (fun s g => initS u g.gid s) {} = s1
+  have hs1f : s1.hasSpaceFb = false := by rw [← hs1, foldl_initS_hasSpaceFb]
+  have hs1d : (s1.hasDI && !hasFlag c.flags BF_PRESERVE) = false := by
+    rcases h3 with h3 | h3
+    · have : s1.hasDI = false := by
+        rw [← hs1, foldl_initS_hasDI]
+        simp only [Bool.false_or, List.any_eq_false]
+        intro g hg; rw [h3 g hg]; decide
+      rw [this]; rfl
+    · rw [h3]; simp
+  have hm1 : ∀ g ∈ l1, g.isMark = false := by
+    rw [← hl1]; intro g hg
+    obtain ⟨x, hx, rfl⟩ := List.mem_map.mp hg
+    unfold G.isMark; simp only; rw [initP_gc]; exact (h1 x hx).mark
+  have hg1 : ∀ g ∈ l1, (nominal f (rot1 u f c g).gid).isSome = true := by
+    rw [← hl1]; intro g hg
+    obtain ⟨x, hx, rfl⟩ := List.mem_map.mp hg
+    exact h2 x hx
+  -- the two buffers that can come out of `prepare`
+  have key : ∀ (l2 : List G) (bdir : Dir), (∀ g ∈ l2, g ∈ l1) → bdir.isHorizontal = c.dir.isHorizontal →
+      finish f c bdir (substitute u f c l2 s1).2
+        (position f c bdir (substitute u f c l2 s1).2 (substitute u f c l2 s1).1) =
+      if bdir.isBackward then
+        (l2.map fun g => posDefault1 f c.dir (mapGlyph1 { rot1 u f c g with var1 := (nominal f (rot1 u f c g).gid).getD 0 })).reverse
+      else l2.map fun g => posDefault1 f c.dir (mapGlyph1 { rot1 u f c g with var1 := (nominal f (rot1 u f c g).gid).getD 0 }) := by
+    intro l2 bdir hsub hhor
+    rw [substitute_plain u f c l2 s1 (fun g hg => hm1 g (hsub g hg)) (fun g hg => hg1 g (hsub g hg))]
+    simp only
+    rw [position_plain f c bdir s1 _ ?_ ?_ hs1f hs1d, finish_plain f c bdir s1 _ hs1d]
+    · simp only [List.map_map, Function.comp_def, posDefault1_congr f bdir c.dir hhor]
+    · intro g hg
+      obtain ⟨x, hx, rfl⟩ := List.mem_map.mp hg
+      unfold G.isMark
+      rw [(mapGlyph1_facts _).1]
+      show isMarkGc (rot1 u f c x).props.gc = false
+      rw [(rot1_props u f c x).1]; exact hm1 x (hsub x hx)
+    · intro g hg
+      obtain ⟨x, hx, rfl⟩ := List.mem_map.mp hg
+      unfold mapGlyph1
+      dsimp only
+      rw [if_pos]
+      have : (rot1 u f c x).props.gc != GC_NON_SPACING_MARK := by
+        rw [(rot1_props u f c x).1]
+        have := hm1 x (hsub x hx)
+        unfold G.isMark isMarkGc at this
+        simp only [Bool.or_eq_false_iff] at this
+        simpa using this.2
+      rw [this]; rfl
+  have hrender : ∀ g, posDefault1 f c.dir (mapGlyph1 { rot1 u f c ({ g with props := initP u g.gid } : G) with
+      var1 := (nominal f (rot1 u f c ({ g with props := initP u g.gid } : G)).gid).getD 0 }) = renderPlain u f c g := by
+    intro g; rfl
+  split
+  · rename_i hnr
+    rw [key l1.reverse c.dir.reverse (fun g hg => List.mem_reverse.mp hg) (isHorizontal_reverse _)]
+    rw [isBackward_reverse, ← hl1]
+    simp only [List.map_reverse, List.map_map, Function.comp_def, hrender]
+    cases c.dir.isBackward <;> simp
+  · rw [key l1 c.dir (fun g hg => hg) rfl, ← hl1]
+    simp only [List.map_map, Function.comp_def, hrender]
+
+
+/-- the mirrored form of `cp` when the font has it -/
+def mirrorCp (u : Ucd) (f : Font) (cp : Nat) : Nat :=
+  match u.mirror cp with
+  | some m => if (nominal f m).isSome then m else cp
+  | none => cp
+
+/-- the vertical form of `cp` when the font has it -/
+def vertCp (u : Ucd) (f : Font) (cp : Nat) : Nat :=
+  match u.vert cp with
+  | some v => if (nominal f v).isSome then v else cp
+  | none => cp
+
+/-- the code point `rotate_chars` leaves for `cp`: the mirrored form when the requested direction is
+    backward and the font has it, then the vertical form when the direction is vertical and the font has it -/
+def rotCp (u : Ucd) (f : Font) (c : Cfg) (cp : Nat) : Nat :=
+  let cp := if c.dir.isBackward then mirrorCp u f cp else cp
+  if c.dir.isVertical then vertCp u f cp else cp
+
+theorem mirror1_gid (u : Ucd) (f : Font) (g : G) : (mirror1 u f g).gid = mirrorCp u f g.gid := by
+  unfold mirror1 mirrorCp
+  cases u.mirror g.gid with
+  | none => rfl
+  | some m => dsimp only; split <;> rfl
+
+theorem vert1_gid (u : Ucd) (f : Font) (g : G) : (vert1 u f g).gid = vertCp u f g.gid := by
+  unfold vert1 vertCp
+  cases u.vert g.gid with
+  | none => rfl
+  | some m => dsimp only; split <;> rfl
+
+theorem rot1_gid (u : Ucd) (f : Font) (c : Cfg) (g : G) : (rot1 u f c g).gid = rotCp u f c g.gid := by
+  unfold rot1 rotCp
+  cases c.dir.isBackward <;> cases c.dir.isVertical <;> simp [mirror1_gid, vert1_gid]
+
+/-- the slot of a plain character `t = (code point, cluster)` in the result, written out -/
+def glyphOf (u : Ucd) (f : Font) (c : Cfg) (t : Nat × Nat) : G :=
+  let gl := (nominal f (rotCp u f c t.1)).getD 0
+  if c.dir.isHorizontal then
+    { cp0 := t.1, gid := gl, cluster := t.2, props := initP u t.1, var1 := 2,
+      xa := hAdvance f gl, ya := 0, xo := 0, yo := 0 }
+  else
+    { cp0 := t.1, gid := gl, cluster := t.2, props := initP u t.1, var1 := 2,
+      xa := 0, ya := vAdvance f gl, xo := -(hOrigin f gl), yo := -(vOrigin f gl) }
+
+theorem renderPlain_initial (u : Ucd) (f : Font) (c : Cfg) (t : Nat × Nat)
+    (hm : isMarkGc (u.gc t.1) = false) :
+    renderPlain u f c { cp0 := t.1, gid := t.1, cluster := t.2 } = glyphOf u f c t := by
+  unfold renderPlain glyphOf
+  simp only
+  rw [rot1_gid]
+  have hp := rot1_props u f c ({ cp0 := t.1, gid := t.1, cluster := t.2, props := initP u t.1 } : G)
+  have hcls : (mapGlyph1 { rot1 u f c ({ cp0 := t.1, gid := t.1, cluster := t.2, props := initP u t.1 } : G) with
+      var1 := (nominal f (rotCp u f c t.1)).getD 0 }).var1 = 2 := by
+    unfold mapGlyph1
+    dsimp only
+    rw [if_pos]
+    have : (rot1 u f c ({ cp0 := t.1, gid := t.1, cluster := t.2, props := initP u t.1 } : G)).props.gc
+        != GC_NON_SPACING_MARK := by
+      rw [hp.1]; simp only; rw [initP_gc]
+      unfold isMarkGc at hm
+      simp only [Bool.or_eq_false_iff] at hm
+      simpa using hm.2
+    rw [this]; rfl
+  unfold posDefault1
+  split
+  · congr 1
+    · exact hp.2.1
+    · exact hp.2.2.1
+    · exact hp.1
+  · simp only [Int.zero_sub]
+    congr 1
+    · exact hp.2.1
+    · exact hp.2.2.1
+    · exact hp.1
+
+/-- `shape` on a text of plain characters that all have glyphs, when nothing is to be hidden -/
+theorem shape_plain (u : Ucd) (f : Font) (c : Cfg) (text : List (Nat × Nat))
+    (hs : ∀ t ∈ text, u.norm t.1 = false ∧ u.mcc t.1 = 0)
+    (h1 : ∀ t ∈ text, PlainChar u t.1)
+    (h2 : ∀ t ∈ text, (nominal f (rotCp u f c t.1)).isSome = true)
+    (h3 : (∀ t ∈ text, (decide (0x80 ≤ t.1) && u.isDI t.1) = false) ∨ hasFlag c.flags BF_PRESERVE = true) :
+    shape u f c text = .ok
+      (if c.dir.isBackward then (text.map (glyphOf u f c)).reverse else text.map (glyphOf u f c)) := by
+  unfold shape
+  simp only
+  have hsc : inScope u (initial text) = true := by
+    unfold inScope initial
+    simp only [List.all_map, List.all_eq_true, Function.comp_def]
+    intro t ht
+    obtain ⟨a, b⟩ := hs t ht
+    simp [a, b]
+  rw [hsc]
+  simp only [Bool.not_true, Bool.false_eq_true, if_false]
+  split
+  · rename_i he
+    have : text = [] := by
+      cases text with
+      | nil => rfl
+      | cons a b => simp [initial] at he
+    subst this; simp
+  · rw [shapeCore_plain u f c (initial text)]
+    · have : (initial text).map (renderPlain u f c) = text.map (glyphOf u f c) := by
+        unfold initial
+        rw [List.map_map]
+        apply List.map_congr_left
+        intro t ht
+        exact renderPlain_initial u f c t (h1 t ht).mark
+      rw [this]
+    · intro g hg
+      unfold initial at hg
+      obtain ⟨t, ht, rfl⟩ := List.mem_map.mp hg
+      exact h1 t ht
+    · intro g hg
+      unfold initial at hg
+      obtain ⟨t, ht, rfl⟩ := List.mem_map.mp hg
+      rw [rot1_gid]; exact h2 t ht
+    · rcases h3 with h3 | h3
+      · left
+        intro g hg
+        unfold initial at hg
+        obtain ⟨t, ht, rfl⟩ := List.mem_map.mp hg
+        exact h3 t ht
+      · exact Or.inr h3
+
 end RbModel.Pipeline
